@@ -191,7 +191,7 @@ def make_jobs(tier, seed):
     for i in range(0, len(names), chunk):
         jobs.append({'names': names[i:i + chunk], 'seed': rng.randrange(1 << 30), 'mode': 'bc',
                      'nparams': 5 if tier == 'quick' else 30, 'n': 160, 'long_n': 4000,
-                     'kinds': ['walk', 'spikes', 'gappy', 'zerovol', 'ties'] if tier == 'quick' else ['walk', 'trend', 'flat', 'spikes', 'alternating', 'gappy', 'lattice', 'zerovol', 'tiny', 'flattail', 'outside', 'ties'],
+                     'kinds': ['walk', 'spikes', 'gappy', 'zerovol', 'ties', 'quietstart'] if tier == 'quick' else ['walk', 'trend', 'flat', 'spikes', 'alternating', 'gappy', 'lattice', 'zerovol', 'tiny', 'flattail', 'outside', 'ties', 'quietstart'],
                      'want_sample': i == 0})
     if tier == 'thorough':
         for rep, n_ in enumerate([120, 200, 260, 330, 160, 500]):
